@@ -5,6 +5,7 @@ package main
 import (
 	"fmt"
 	"go/types"
+	"strings"
 
 	"golang.org/x/tools/go/ssa"
 )
@@ -17,6 +18,7 @@ func rulesC01(c *Ctx) {
 	c01Verdict(c)
 	c01Self(c)
 	c01Outermost(c)
+	c01WithContext(c)
 	c01Wrapper(c)
 	// "each policy handles only what the policy inside it returned": what a policy handles is decided by the shared
 	// classification
@@ -670,6 +672,91 @@ func c01Self(c *Ctx) {
 }
 
 // ---- C01.outermost -------------------------------------------------------------------------------------
+
+// c01WithContext: Executor.WithContext(ctx) returns a copy of the executor that differs from it in the context only:
+// a fresh object (listeners later registered on the copy do not reach the original, and the reverse), the very
+// context given (its values — the cache key — its deadline and its cancellation are what executions see; a nil
+// context keeps the old one), the same policies and listeners, and nothing else happens. The listeners live in the
+// executor itself, not behind a pointer the copies would share.
+func c01WithContext(c *Ctx) {
+	c.Rule("with-context")
+	fn := c.P.Func("failsafe.(*executor).WithContext")
+	if fn == nil {
+		c.Unresolved("failsafe.(*executor).WithContext", "not found")
+		return
+	}
+	name, pos := c.fn(fn), c.P.FuncPos(fn)
+	ev := NewEvaluator(c.P, EvalConfig{})
+	ts := ev.TS
+	ps := ev.Run(fn)
+	if ev.Err != nil || len(ps) == 0 {
+		c.Undecided(name, pos, fmt.Sprintf("evaluation failed: %v", ev.Err), "")
+		return
+	}
+	recv := ev.Param(fn, fn.Params[0].Name())
+	ctx := ev.Param(fn, fn.Params[1].Name())
+	s0 := ev.NewState()
+	ok := true
+	for _, p := range ps {
+		bad := func(msg string) {
+			ok = false
+			c.Fail(name, pos, msg, pathTrace(ev, p))
+		}
+		if p.Exit != ExitReturn || len(p.Rets) != 1 {
+			bad("WithContext must return")
+			continue
+		}
+		r := p.Rets[0]
+		if r == recv || !(r.Op == "alloc" || (r.Op == "faddr" && isFreshRoot(r))) {
+			bad("WithContext must return a fresh copy of the executor: returning the receiver makes listeners registered on the derived executor overwrite the original's")
+			continue
+		}
+		if len(impure(p)) != 0 {
+			bad("WithContext must do nothing but copy the executor and set its context (no derived context, no calls)")
+			continue
+		}
+		got := ev.LoadField(p.State, r, "ctx")
+		switch p.State.Facts.Truth(ts, ts.Cmp("!=", ctx, ts.Nil(nil))) {
+		case triT:
+			if got != ctx {
+				bad("the copy must carry exactly the context given: its values (the cache key), its deadline and its cancellation")
+			}
+		case triF:
+			if got != ev.LoadField(s0, recv, "ctx") {
+				bad("a nil context keeps the executor's context")
+			}
+		default:
+			bad("the copy's context does not depend on whether a context was given")
+		}
+		for _, f := range []string{"policies", "onDone", "onSuccess", "onFailure"} {
+			if ev.LoadField(p.State, r, f) != ev.LoadField(s0, recv, f) {
+				bad("the copy must keep the executor's " + f)
+			}
+		}
+	}
+	// listener storage is not shared between copies
+	if n := namedOfPtr(recv.Typ); n != nil {
+		if st, isS := n.Underlying().(*types.Struct); isS {
+			for i := 0; i < st.NumFields(); i++ {
+				pn := namedOfPtr(st.Field(i).Type())
+				if _, isPtr := st.Field(i).Type().Underlying().(*types.Pointer); !isPtr || pn == nil || pn.Obj().Pkg() == nil || !strings.HasPrefix(pn.Obj().Pkg().Path(), modPath) {
+					continue
+				}
+				if ps, isS2 := pn.Underlying().(*types.Struct); isS2 {
+					for j := 0; j < ps.NumFields(); j++ {
+						if _, isFn := ps.Field(j).Type().Underlying().(*types.Signature); isFn {
+							ok = false
+							c.Fail(name+"#shared-listeners", pos, fmt.Sprintf("the executor keeps listener %s.%s behind a pointer: the copies WithContext makes share it, so a listener registered on one is seen (and raced on) by all", pn.Obj().Name(), ps.Field(j).Name()), "")
+						}
+					}
+				}
+			}
+		}
+	}
+	if ok {
+		c.Ok(name, pos, "fresh copy; the given context (the old one when nil); policies and listeners copied by value; no other effect")
+	}
+}
 
 func c01Outermost(c *Ctx) {
 	c.Rule("outermost")
